@@ -118,6 +118,20 @@ def week_walk_model(x_fold, f, zone, op, ws):
     return r2 and r2[0]
 
 
+def universal(tag, x, r, ru, u, f, zone, unit, op, ws, loc):
+    """the clauses that hold whatever the boundary's wall time looks like"""
+    if op == "start_of":
+        req(ru <= u, f"{tag} is later than the value", value=loc.isoformat(), got=r.isoformat())
+        nb = T.render(ru - 1, zone)
+    else:
+        req(ru >= u, f"{tag} is earlier than the value", value=loc.isoformat(), got=r.isoformat())
+        nb = T.render(ru + 1, zone)
+    req(unit_id(T.fields(r), unit, ws) == unit_id(f, unit, ws), f"{tag}: result lies in another unit than the value", value=loc.isoformat(), got=r.isoformat())
+    req(unit_id(T.fields(nb), unit, ws) != unit_id(f, unit, ws), f"{tag}: the neighbouring microsecond is still in the same unit", got=r.isoformat(), neighbour=nb.isoformat())
+    r2 = getattr(r, op)(unit)
+    req(T.us(r2) == ru and T.fields(r2) == T.fields(r), f"{tag} is not idempotent", once=r.isoformat(), twice=r2.isoformat())
+
+
 def check_one(x, u, zone, unit, op, ws):
     """returns label"""
     loc = T.render(u, zone)
@@ -144,10 +158,12 @@ def check_one(x, u, zone, unit, op, ws):
             good = None
             if kind == "unique":
                 good = pre[0]
-            elif kind in ("repeated", "skipped"):
+            elif kind == "skipped":
+                good = gap[0] * US if op == "start_of" else gap[0] * US - 1      # the unit starts where the skipped stretch ends and ends just before it
+            elif kind == "repeated":
                 c0, c1 = T.expected_construct(W, zone, 0)[1], T.expected_construct(W, zone, 1)[1]
                 if c0 is not None and c1 is not None:
-                    good = (c0 if op == "start_of" else c1) if kind == "repeated" else (c1 if op == "start_of" else c0)
+                    good = c0 if op == "start_of" else c1
             if good is None:
                 return "compound-boundary"
             if ru == good:
@@ -184,9 +200,12 @@ def check_one(x, u, zone, unit, op, ws):
     if kind == "repeated":
         good = c0 if op == "start_of" else c1
     else:
-        good = c1 if op == "start_of" else c0
+        # skipped: the first instant of the unit is the one at which the skipped stretch ends, the last one the microsecond before it begins - which is
+        # the boundary moved by the gap's length only when the gap begins (ends) exactly on the boundary
+        good = gap[0] * US if op == "start_of" else gap[0] * US - 1
     other = c1 if good == c0 else c0
     if ru == good:
+        universal(tag, x, r, ru, u, f, zone, unit, op, ws, loc)
         return kind + "-boundary:direction-correct"
     req(ru == other, f"{tag}: boundary wall time is {kind} and the result is neither of its two resolutions", got=r.isoformat(), candidates=[T.render(c0, zone).isoformat(), T.render(c1, zone).isoformat()])
     if kind == "repeated":
